@@ -1,7 +1,94 @@
-import Driver.Util
-open Lean
+import Driver.ProgJson
+import Heph.Model.TransGroovy
+/-! ops of the Groovy translator model (`Heph.TransGroovy`):
+ * `trans.groovy` `{program: <export>, package: str|null, history?: [<export>…], cast_numbers?: bool}` → text of
+   `program` printed by a translator object that has already translated the programs of `history`; the object may
+   start from hand-set attributes (`ident`, `is_unit`, `_cast_number`, `_inside_is`, `_inside_is_function`,
+   `_namespace`, `_children_res`; default: the values after `__init__`)
+ * `trans.groovy.state` (same request) → the attributes of the object after translating history and program
+ * `trans.groovy.visit` `{program, ident?, is_unit?, _cast_number?, _inside_is?, _inside_is_function?,
+   _namespace?, _children_res?, cast_numbers?}` → the top-level declarations visited in turn from that hand-set state (no
+   `visit_program`): `{"texts": _children_res, "state": attributes afterwards}`
+ An export is `harness/export_ast.export_program`: beside `tt`, `decls`, `context` it carries `ctxinfo`, parallel to
+ `context`: `null` for a `None` value, the `class_type` of a class declaration, `-1` for anything else. -/
+open Lean Heph Heph.TransGroovy
 namespace Driver.TransGroovy
 
-def handle : Handler := fun _ _ => none
+def parseVal (j : Json) : CVal :=
+  if j.isNull then CVal.none
+  else match j.getInt? with
+    | .ok i => if i ≥ 0 then CVal.cls i.toNat else CVal.other
+    | .error _ => CVal.other
+
+def parseG (j : Json) : Except String GProgram := do
+  let (_, p) ← parseProgramObj j
+  let vals ← match j.getObjVal? "ctxinfo" with
+    | .error _ => pure (p.context.map fun _ => CVal.other)
+    | .ok a => do pure ((← a.getArr?).toList.map parseVal)
+  if vals.length != p.context.length then throw "ctxinfo must be parallel to context"
+  pure { decls := p.decls,
+         env := (p.context.zip vals).map fun (c, v) => { ns := c.ns, kind := c.kind, name := c.name, val := v } }
+
+def getPackage (j : Json) : Option String :=
+  match j.getObjValD "package" with | .str s => some s | _ => none
+
+def getHistory (j : Json) : Except String (List GProgram) := do
+  match j.getObjVal? "history" with
+  | .error _ => pure []
+  | .ok h => (← h.getArr?).toList.mapM parseG
+
+def getProgram (j : Json) : Except String GProgram := do parseG (← j.getObjVal? "program")
+
+def getB (j : Json) (k : String) : Bool := (j.getObjValAs? Bool k).toOption.getD false
+
+def tagStr : Tag → String
+  | .none => "none" | .classD => "class" | .funcRef => "funcref" | .other => "other"
+
+def stJson (st : St) (o : Out) (package : Option String) : Json :=
+  Json.mkObj [
+    ("ident", Json.num (JsonNumber.fromNat st.ident)), ("is_unit", st.isUnit), ("_cast_number", st.castNumber),
+    ("_namespace", ofStrList st.ns), ("_inside_is", st.insideIs), ("_inside_is_function", st.insideIsFunction),
+    ("_nodes_stack", Json.arr (st.stack.reverse.toArray.map fun t => Json.str (tagStr t))),
+    ("_function_interfaces", ofStrList (st.functionInterfaces.map toString)),
+    ("context", match st.context with | some _ => Json.str "set" | none => Json.null),
+    ("types", Json.bool st.typesSet), ("always_cast_numbers", st.alwaysCastNumbers), ("always_cast_ftypes", true),
+    ("_children_res", ofStrList o.childrenRes), ("_main_children", ofStrList o.mainChildren),
+    ("_main_method", Json.str o.mainMethod),
+    ("package", match package with | some s => Json.str s | none => Json.null)]
+
+/-- hand-set attributes of the request (absent = value after `__init__`) -/
+def handSt (j : Json) (ctx : Option Env) : Except String St := do
+  let ns ← match j.getObjVal? "_namespace" with
+    | .error _ => pure ["global"]
+    | .ok a => (← a.getArr?).toList.mapM fun s => s.getStr?
+  pure { ident := (j.getObjValAs? Nat "ident").toOption.getD 0,
+         isUnit := getB j "is_unit", castNumber := getB j "_cast_number",
+         insideIs := getB j "_inside_is", insideIsFunction := getB j "_inside_is_function",
+         ns := ns, alwaysCastNumbers := getB j "cast_numbers", context := ctx }
+
+def handOut (j : Json) : Except String Out := do
+  match j.getObjVal? "_children_res" with
+  | .error _ => pure {}
+  | .ok a => do pure { childrenRes := ← (← a.getArr?).toList.mapM fun s => s.getStr? }
+
+/-- the object the request starts from: constructed (with hand-set attributes, if any), then the history -/
+def startObj (j : Json) : Except String Obj := do
+  let ob : Obj := { st := ← handSt j none, out := ← handOut j, package := getPackage j }
+  pure (after ob (← getHistory j))
+
+def handle : Handler := fun op j =>
+  match op with
+  | "trans.groovy" => some (do
+      let p ← getProgram j
+      pure (res (Json.str (text (← startObj j) p))))
+  | "trans.groovy.state" => some (do
+      let p ← getProgram j
+      let ob := visitProgram (← startObj j) p
+      pure (res (stJson ob.st ob.out ob.package)))
+  | "trans.groovy.visit" => some (do
+      let p ← getProgram j
+      let r := visitL (← handSt j (some p.env)) (← handOut j) p.decls
+      pure (res (Json.mkObj [("texts", ofStrList r.2.childrenRes), ("state", stJson r.1 r.2 none)])))
+  | _ => none
 
 end Driver.TransGroovy
